@@ -82,10 +82,18 @@ func runC20(s *kernel.Sim) {
 	}
 	type react struct {
 		t    time.Duration
+		end  time.Duration // the instant the reaction returned
 		v    bool
 		nObs int // observations made before the reaction
 	}
 	var reactions []react
+	// the real unhealthy reaction rewrites policies and talks to the proxy: in a quarter of
+	// the runs it takes time, up to more than the cool-down that follows it
+	reactFor := time.Duration(0)
+	if tp.Chance(1, 4) {
+		reactFor = []time.Duration{interval, 3 * interval, cooldown, cooldown + 2*interval, 9 * time.Second}[tp.Choose(5)]
+	}
+	s.Knobs["unhealthy_reaction_takes"] = reactFor.String()
 	cfg := failsafe.Config{
 		ObtainPredicate: func() bool {
 			i := len(observations)
@@ -106,12 +114,18 @@ func runC20(s *kernel.Sim) {
 			return v
 		},
 		OnChangeToTrue: func() {
-			reactions = append(reactions, react{s.Now(), true, returned()})
+			reactions = append(reactions, react{s.Now(), s.Now(), true, returned()})
 			s.Event("reaction", "healthy-again")
 		},
 		OnChangeToFalse: func() {
-			reactions = append(reactions, react{s.Now(), false, returned()})
+			reactions = append(reactions, react{s.Now(), s.Now(), false, returned()})
 			s.Event("reaction", "unhealthy")
+			if reactFor > 0 {
+				k := len(reactions) - 1
+				s.FaultFired("slow_unhealthy_reaction")
+				time.Sleep(reactFor)
+				reactions[k].end = s.Now()
+			}
 		},
 		MinTimeBetweenCalls: interval, ConsecutiveN: consecutive, MinStablePeriod: stable, CooldownPeriod: cooldown,
 	}
@@ -153,10 +167,10 @@ func runC20(s *kernel.Sim) {
 		}
 		s.Rule("R3")
 		if lastUnhealthy >= 0 && r.t > lastUnhealthy && r.t < lastUnhealthy+cooldown {
-			s.Violate("R3", "reaction-during-cooldown", "reaction %v at %v, %v after the unhealthy reaction; cool-down is %v", name20(r.v), r.t, r.t-lastUnhealthy, cooldown)
+			s.Violate("R3", "reaction-during-cooldown", "reaction %v at %v, %v after the unhealthy reaction had finished; cool-down is %v", name20(r.v), r.t, r.t-lastUnhealthy, cooldown)
 		}
 		if !r.v {
-			lastUnhealthy = r.t
+			lastUnhealthy = r.end // the cool-down follows the reaction
 		}
 	}
 	if len(reactions) > 0 {
